@@ -17,6 +17,10 @@ CHECKS = {
    technique="TLA+ spec IDR.tla (node arena, AddChild, 4-case unlink, recycle/reset, pool, ID counter) model-checked by TLC over all reachable arenas; operation words executed on the real idr package and every step trace-validated by TLC with the full pointer structure; reader-produced trees dumped and checked by TLC; pool ownership via verif hook",
    text="TLC explores every reachable configuration of a 4-cell (thorough: 5-cell) arena under all interleavings of CreateNode/AddChild/RemoveAndReleaseTree, pooling on and off, and checks link consistency, acyclicity, blank pooled cells, no dangling references and ID distinctness in each. The code is bound by executing every legal operation word (<=5/6 ops) plus random long words on the real package and having TLC accept each step only if the real pointer structure equals the specified one; trees handed out by all seven readers are dumped after every Read and checked by the same structural predicate; get/put hook events check single ownership, blankness and ID uniqueness of every acquisition.",
    note="Trusted: TLC, sync.Pool's own hand-out discipline, the harness's pointer numbering. Racing acquisitions are covered by C14's driver, not here."),
+ "C04": dict(cat="model_checking", design="5/C04",
+   technique="TLA+ spec StreamSelect.tla (token-driven reader model with partial tree, candidate marking, final check, pruning vs. whole-document outermost selection), checked by TLC on every small document x xpath; emitted cases replayed on the real XML/JSON stream readers; random runs validated by TLC (Trace_StreamSelect.tla)",
+   text="TLC evaluates, for every XML-shaped document with <=3 (thorough: 4) nodes and every xpath of the property's class with <=2 (3) steps and 7 predicate forms, the reader state machine transcribed from xmlreader.go/jsonreader.go against whole-document outermost selection, plus pruning and candidate-identity invariants; each case is replayed on the real XMLStreamReader and JSONStreamReader, and the real engine's whole-document result validates the specification's xpath semantics on every case (mismatch = exit 2). Random documents up to 40 nodes are validated by TLC evaluating the reference on the logged case.",
+   note="Trusted: TLC, the XML/JSON renderers of the harness. Document payloads are small alphabets; arrays/numbers in JSON are covered by C08, not here."),
 }
 
 def main():
